@@ -435,6 +435,36 @@ func ruleC10Last(p *Prog, a *Anchors, r *Report) {
 	}
 	checkLast(exec, "the block node")
 	checkLast(super, "block.Super")
+	// the walk starts at the ROOT of the chain, which is what an execution context's template is: nothing reassigns
+	// ExecutionContext.template after the context was built (a block body that runs "as" the template it is written in
+	// makes a nested block start its walk in the middle of the chain and lose the definitions above it for Super)
+	nTpl := 0
+	p.EachInstr(func(f *ssa.Function, in ssa.Instruction) {
+		st, ok := in.(*ssa.Store)
+		if !ok || !p.InPkg(f) || !isFieldAddrOf(st.Addr, "ExecutionContext", "template") {
+			return
+		}
+		nTpl++
+		key := p.FuncName(f) + ":ExecutionContext.template="
+		base := stripLoad(st.Addr.(*ssa.FieldAddr).X)
+		_, fresh := base.(*ssa.Alloc)
+		if fresh {
+			r.OK(key, p.InstrPos(in), "set while the context is being built")
+			return
+		}
+		// a child context that was just made by the package's constructor and is still private to this function
+		if c, isCall := base.(*ssa.Call); isCall && c.Common().StaticCallee() != nil && p.InPkg(c.Common().StaticCallee()) && allFresh(p.Roots(base)) {
+			// allowed only if it re-states the parent's template (same chain root)
+			if ld, isLd := stripLoad(st.Val).(*ssa.UnOp); isLd && loadsField(ld, "ExecutionContext", "template") {
+				r.OK(key, p.InstrPos(in), "a fresh child context is given its parent's template")
+				return
+			}
+		}
+		r.Bad(key, p.InstrPos(in), "the template of an execution context is reassigned (to %s) while executing: block tags executed afterwards start their walk over the inheritance chain there instead of at the root, so the definitions above it are missing for block.Super", p.VN(st.Val))
+	})
+	if nTpl == 0 {
+		r.Unk("ExecutionContext.template", "-", "anchor unresolved: no store to ExecutionContext.template")
+	}
 	// the Super information is (re)bound for every definition that is executed: a definition run with the `block`
 	// name left over from another block would render that block's parent
 	for _, f := range []*ssa.Function{exec, super} {
